@@ -189,4 +189,13 @@ def Consistent (ms : List Msg) (evs : List Ev) : Prop :=
   ∀ p, p <+: evs → ∀ k, k ≤ ms.length → (bytesUpTo ms k).length ≤ (bytesOf p).length →
     (fdsUpTo ms k).length ≤ (fdsOf p).length
 
+/-- The same for a connection that starts in line mode: the first `n` bytes of the stream are the
+authentication handshake, the messages follow; descriptors may arrive at any time from the moment the
+connection exists (also before or among the reads that carry the handshake). -/
+def ConsistentAfter (n : Nat) (ms : List Msg) (evs : List Ev) : Prop :=
+  (bytesOf evs).drop n <+: bytesUpTo ms ms.length ∧
+  fdsOf evs <+: fdsUpTo ms ms.length ∧
+  ∀ p, p <+: evs → ∀ k, k ≤ ms.length → n + (bytesUpTo ms k).length ≤ (bytesOf p).length →
+    (fdsUpTo ms k).length ≤ (fdsOf p).length
+
 end Txdbus.Proto
